@@ -1,6 +1,7 @@
 package harness
 
 import (
+	"encoding/json"
 	"fmt"
 	"net/url"
 	"os"
@@ -52,7 +53,29 @@ type c13Any struct {
 	Up  uintptr
 }
 
-var c13Fields = []string{"S", "N", "F", "B", "U", "Sl", "Is", "Arr", "M", "P", "PP", "PS", "I", "Fn", "Ch", "T", "PT", "L", "Ls", "ML", "MI", "C", "UP", "E", "St", "AA", "MS", "Up"}
+type c13emb struct {
+	X string
+	N int
+}
+
+type c13embp struct{ Y string }
+
+type c13hash [32]byte
+
+// c13Host: embedded fields of lower-case struct types (promoted fields are
+// reachable in Go, the embedded field itself is unexported), byte arrays.
+type c13Host struct {
+	c13emb
+	*c13embp
+	Name string
+	BA   [4]byte
+	H    c13hash
+	HS   []c13hash
+	BAA  [2][4]byte
+	RM   json.RawMessage
+}
+
+var c13Fields = []string{"c13emb", "c13embp", "BA", "H", "HS", "BAA", "RM", "S", "N", "F", "B", "U", "Sl", "Is", "Arr", "M", "P", "PP", "PS", "I", "Fn", "Ch", "T", "PT", "L", "Ls", "ML", "MI", "C", "UP", "E", "St", "AA", "MS", "Up"}
 
 func c13Populated() *c13Any {
 	s := "abc"
@@ -235,6 +258,15 @@ func c13AllShapes() map[string]func() interface{} {
 		I2 interface{}
 		K  interface{}
 	}
+	m["host-embedded-lowercase-and-byte-arrays"] = func() interface{} {
+		return &c13Host{c13emb: c13emb{X: "a", N: 1}, c13embp: &c13embp{Y: "b"}, Name: "n", BA: [4]byte{1, 2, 3, 4}, H: c13hash{9}, HS: []c13hash{{1}, {1}}, BAA: [2][4]byte{{1}, {1}}, RM: json.RawMessage(`{"a":1}`)}
+	}
+	m["host-zero"] = func() interface{} { return &c13Host{} }
+	m["byte-array"] = func() interface{} { return [4]byte{1, 2, 3, 4} }
+	m["named-byte-array"] = func() interface{} { return c13hash{7} }
+	m["slice-of-byte-arrays"] = func() interface{} { return [][4]byte{{1}, {1}} }
+	m["byte-slice"] = func() interface{} { return []byte("ab\x00") }
+	m["map-of-byte-arrays"] = func() interface{} { return map[string]interface{}{"k": [4]byte{1}, "z": c13hash{1}, "n": []byte("x")} }
 	m["ifaces-holding-slices"] = func() interface{} { return &twoIfaces{I: []int{1}, I2: []int{1}, K: []int{2}} }
 	m["ifaces-holding-maps"] = func() interface{} {
 		return &twoIfaces{I: map[string]int{"a": 1}, I2: map[string]int{"a": 1}, K: map[string]int{}}
